@@ -86,6 +86,11 @@ def run(chk, repo, tier):
     from sa import snapshot
     snapshot.run_rule(chk, O8, repo)
     run_o9_o10(chk, repo)
+    O11 = chk.rule('O11', 'system classes: fields compared by __eq__ are serialised through the same (raw) view', floor=5)
+    from rules.C12 import check_h2
+    spairs = [c for c in repo.all_classes() if c.module.name == 'pharmpy.model.statements'
+              and 'to_dict' in c.methods and 'from_dict' in c.methods]
+    check_h2(chk, O11, repo, spairs)
 
     # ---------------------------------------------------------------- O1
     for acc in ('amounts', 'compartment_names', 'compartmental_matrix', 'zero_order_inputs'):
